@@ -28,18 +28,28 @@ func NewWith(convert StructOptions, value interface{}) Value {
 		return Null{}
 	}
 
-	// see if value implements MarshalValue
-	if mar, ok := value.(Marshaler); ok {
-		return mar.MarshalValue()
-	}
-
-	// drill through pointers and interfaces to the underlying type
+	// drill through pointers and interfaces to the underlying type; a nil
+	// pointer is null, and a value that implements MarshalValue (at any
+	// level of indirection) marshals itself.
 	var v = reflect.ValueOf(value)
-	for v.Kind() == reflect.Interface || v.Kind() == reflect.Ptr {
+	for {
+		if v.Kind() == reflect.Interface {
+			if v.IsNil() {
+				return Null{}
+			}
+			v = v.Elem()
+			continue
+		}
+		if v.Kind() == reflect.Ptr && v.IsNil() {
+			return Null{}
+		}
+		if mar, ok := v.Interface().(Marshaler); ok {
+			return mar.MarshalValue()
+		}
+		if v.Kind() != reflect.Ptr {
+			break
+		}
 		v = v.Elem()
-	}
-	if !v.IsValid() {
-		return Null{}
 	}
 
 	if v.Type() == timeType {
